@@ -167,6 +167,9 @@ func SolveAll(workDir string, obls []*Obligation, timeoutS, par int) {
 	sem := make(chan struct{}, par)
 	var wg sync.WaitGroup
 	for _, o := range obls {
+		if o.Kind == "ground" {
+			continue // decided by evaluation inside govc
+		}
 		wg.Add(1)
 		sem <- struct{}{}
 		go func(o *Obligation) {
